@@ -15,8 +15,36 @@ def mk (o h l c v : Int) (inds : List (String × Val ℚ) := []) (subs : List (S
 def cs : List (Candle ℚ) :=
   [ mk 10 12 9 11 100,
     mk 11 13 10 12 200,
-    mk 12 15 11 14 300 [("SMA_3", .flt (37/3)), ("EMA_3", .flt 12), ("RMA_3", .flt 12), ("OBV", .int 600)] [("ATR_3_TR", .flt 4)],
-    mk 14 16 13 15 0 ]
+    mk 12 15 11 14 300
+      [("SMA_3", .flt (37/3)), ("EMA_3", .flt 12), ("RMA_3", .flt 12), ("OBV", .int 600), ("ATR_3", .flt 3),
+       ("COUNT", .int 2), ("RSI_3", .flt 50),
+       ("ST_3", .dict [("trend", .num (.flt 10)), ("direction", .num (.int 1)), ("long", .num (.flt 10)), ("short", .none)]),
+       ("VWAP", .flt 12)]
+      [("ATR_3_TR", .flt 4),
+       ("ST_3_data", .dict [("upper", .num (.flt 18)), ("lower", .num (.flt 10))]),
+       ("STDEV_3_data", .dict [("mean", .num (.flt (37/3))), ("variance", .num (.flt (14/9)))]),
+       ("RSI_3_data", .dict [("gain", .num (.flt 1)), ("loss", .num (.flt 0))]),
+       ("VWAP_data", .dict [("pv", .num (.flt 7000)), ("vol", .num (.int 600))])],
+    mk 14 16 13 15 0 []
+      [("ATR_3_TR", .flt 3), ("BB_3_SMA", .flt 13), ("BB_3_STDEV", .flt 1), ("KC_3_EMA", .flt 13), ("KC_3_ATR", .flt 3),
+       ("ST_3_atr", .flt 3), ("ST_3_HL", .flt (29/2)), ("THR_stdev", .flt 0.5),
+       ("MACD_EMA_slow", .flt 12), ("MACD_EMA_fast", .flt 13), ("MACD_signal_line", .flt 0.5),
+       ("HMA_4_WMA", .flt 13), ("HMA_4_WMAh", .flt 14), ("HMA_4_HMAs", .flt 15),
+       ("TSI_abs_second", .flt 2), ("TSI_second", .flt 1),
+       ("STOCH_k", .flt 60), ("STOCH_d", .flt 55),
+       ("ADX_atr", .flt 3), ("ADX_pos", .flt 1), ("ADX_neg", .flt 0.5), ("ADX_dx", .flt 30)] ]
+
+/-- framework services that succeed without touching the candles (enough for non-vacuity: the
+numeric theorems only need the writes to succeed and the read-backs to be what they are) -/
+def ops : Ops ℚ := { setManaged := fun _ _ cs => .ok cs, calcManaged := fun _ cs => .ok cs }
+
+/-- framework services that really write the helper series `name` on candle 3 -/
+def wr (name : String) (v : Val ℚ) (cs : List (Candle ℚ)) : List (Candle ℚ) :=
+  match setReading true name cs 3 v with
+  | .ok cs' => cs'
+  | .error _ => cs
+def opsW (name : String) : Ops ℚ :=
+  { setManaged := fun _ v cs => .ok (wr name v cs), calcManaged := fun _ cs => .ok cs }
 
 /-- the context of index 3 for an indicator called `name` -/
 def ctx (name : String) (i : Int := 3) : Ctx ℚ := { cs := cs, i := i, name := name }
